@@ -311,7 +311,7 @@ package inprocgrpc
 //@   assert_call[C02,C05] internal.TranslateContextError : only_for_a_failed_read_and_the_state_follows: called(readMessage) && lastresult(readMessage, 1) != nil && arg0 == lastresult(readMessage, 1) && (lastresult(readMessage, 1) == io.EOF ==> s.state == 2)
 //@   assert_call[C02,C05] translateHandlerError : of_the_error_frame_and_the_stream_is_closed: s.state == 2 && (called(readMessage) ==> lastresult(readMessage, 1) == nil && s.last != nil && s.last.err == arg0 && arg0 != nil) && (!called(readMessage) ==> old(s.last) != nil && arg0 == old(s.last.err))
 //@   assert_call[C03] (*internal.CallOptions).SetTrailers : trailer_frame_to_stream_and_options: arg0 == s.copts && arg1 == r.trailers && s.trailers == r.trailers && r.trailers != nil
-//@   assert_call[C01,C04] readMessage : next_response_frame_with_the_stream_context: arg0 == s.ctx && arg1 == s.responses
+//@   assert_call[C01,C04] readMessage : next_response_frame_with_the_stream_context: arg0 == s.ctx && arg1 == s.responses && held(&s.respMu)
 //@   modifies s.state, s.last, s.headers, s.trailers, mem("metadata.MD"), mem("error"), external
 //
 //@ func (*inProcessClientStream).ensureNoMoreLocked
@@ -329,6 +329,7 @@ package inprocgrpc
 //@   locks_only[C05] &s.respMu
 //@   ensures[C03] returns_the_headers_seen_so_far: result1 == nil ==> result0 == s.headers
 //@   assert_call[C04,C01] readMessage : first_frame_with_the_stream_context: arg0 == s.ctx && arg1 == s.responses && at_lock(s.state) == 0
+//@   assert_call[C01,C05] readMessage : the_peek_and_its_bookkeeping_are_one_critical_section: held(&s.respMu) && s.state == 0
 //@   ensures[C04] receive_failure_is_returned: called(readMessage) && lastresult(readMessage, 1) != nil && lastresult(readMessage, 1) != io.EOF ==> result0 == nil && result1 == lastresult(readMessage, 1)
 //@   ensures[C03] reads_at_most_one_frame: calls(readMessage) <= 1
 //@   ensures[C03,C01,C20] a_frame_is_read_for_headers_at_most_once_per_stream: called(readMessage) && (lastresult(readMessage, 1) == nil || lastresult(readMessage, 1) == io.EOF) ==> s.state != 0
@@ -387,10 +388,11 @@ package inprocgrpc
 //@   modifies nothing
 //
 //@ closure CopyFunc.cloneFn
-//@   ensures[C18,C06] copies_once_into_a_fresh_value: calls("var:fn") == 1
+//@   ensures[C18,C06] copies_once_into_a_fresh_value: calls("var:fn") <= 1 && (result1 == nil ==> calls("var:fn") == 1)
 //@   assert_call[C18,C06] var:fn : fresh_destination_of_the_sources_type_then_source: arg0 == lastresult("(reflect.Value).Interface") && arg1 == in && lastarg("reflect.TypeOf", 0) == in
-//@   ensures[C18,C06] copy_failure_yields_no_clone: lastresult("var:fn") != nil ==> result0 == nil && result1 == lastresult("var:fn")
-//@   ensures[C18,C06] success_returns_the_fresh_value: lastresult("var:fn") == nil ==> result1 == nil && result0 == lastresult("(reflect.Value).Interface")
+//@   ensures[C18,C06] copy_failure_yields_no_clone: called("var:fn") && lastresult("var:fn") != nil ==> result0 == nil && result1 == lastresult("var:fn")
+//@   ensures[C18,C06] success_returns_the_fresh_value: called("var:fn") && lastresult("var:fn") == nil ==> result1 == nil && result0 == lastresult("(reflect.Value).Interface")
+//@   ensures[C18] a_refusal_yields_no_clone: result1 != nil ==> result0 == nil
 //@   modifies external
 //
 //@ func CodecCloner
